@@ -13,6 +13,7 @@ import (
 // explorer's state caching could merge prefixes that differ in harness state.
 type Cell struct{ hb uint64 }
 
+//go:norace
 func (c *Cell) Touch() {
 	if x := vrt.Cur(); x != nil && !x.Aborting() && x.Me() != nil {
 		x.Touch(&c.hb, 0x109)
@@ -20,12 +21,16 @@ func (c *Cell) Touch() {
 }
 
 // WithCancel returns a context whose cancellation is visible to the explorer.
+//
+//go:norace
 func WithCancel(parent context.Context) (context.Context, context.CancelFunc) {
 	return vctx.WithCancel(parent)
 }
 
 // WaitUntil parks the calling thread until cond holds (cond reads harness state that is
 // protected by a Cell).
+//
+//go:norace
 func WaitUntil(c *Cell, desc string, cond func() bool) {
 	x := vrt.Cur()
 	if x == nil || x.Aborting() {
@@ -37,6 +42,8 @@ func WaitUntil(c *Cell, desc string, cond func() bool) {
 
 // WaitQuiescent parks the calling thread until no other thread can make progress
 // (branching stays on while the others run).
+//
+//go:norace
 func WaitQuiescent(c *Cell) {
 	x := vrt.Cur()
 	if x == nil || x.Aborting() {
